@@ -10,6 +10,11 @@ Driver family `spy` (C20).  Case lines (a delivery sequence shares its `<cid>`, 
       `barrier` = the per-subscription sentinel sent after it came through)
 * `spyleave <cid> id=<n> how=cancel|senderr res=canceled|senderr|nil|other|timeout removed=0|1`
 * `spystall <cid> variant=stall|depart filterA=.. entered=0|1 published= through= pub= reg= rem= bgot= arem= deadline_ms= recovered=`
+* `spyslow <cid> filterA=<-|chain:hex> len= entered=0|1 pubs=<dec;dec;..> res=<r,r,..> agot=<-|i,i,x..> bgot=<..> abar=0|1 bbar=0|1`
+      a slow (not stalled) subscriber A and a prompt one B; what each received, as indexes into the list of published VAAs
+      (`x` = bytes that were never published)
+* `spydepart <cid> filterA=.. caughtup=0|1 inwindow=0|1 pub= rem= bgot= deadline_ms= recovered=`
+      a subscriber that has read everything disconnects; one matching VAA is published while its handler is between waking and removal
 * `spycap <cid> through=<n>`  (only when a publish blocked) publishes absorbed by the stalled subscriber
       one subscriber's client stopped reading (and, for `depart`, then disconnected): did a later Publish, a new registration,
       another subscriber's removal, delivery to a reading subscriber (and the stalled subscriber's own removal) complete in time
@@ -55,6 +60,7 @@ structure St where
   nDuplicates : Nat := 0
   nLeaves : Nat := 0
   nStall : Nat := 0
+  nSlow : Nat := 0
 
 def showFilters (fs : List Filter) : String :=
   if fs.isEmpty then "-" else ",".intercalate (fs.map fun f => s!"{f.chain}:{toHex f.addr}")
@@ -150,6 +156,60 @@ def step (st : St) (line : String) : St × List String :=
         let bad := ["pub", "reg", "rem", "bgot", "arem"].filter fun k => g k ≠ "done" && g k ≠ "n/a"
         if bad.isEmpty then (st, [s!"ok {id}"])
         else (st, [s!"spec {id} publish-blocked-by-stalled-subscriber variant={g "variant"} filterA={g "filterA"}: with one subscriber not reading, after {g "through"} publishes, within {g "deadline_ms"} ms: next-publish={g "pub"} registration={g "reg"} removal-of-another={g "rem"} delivery-to-reader={g "bgot"} removal-of-stalled={g "arem"}"])
+  | "spyslow" :: id :: rest =>
+    let st := { st with n := st.n + 1 }
+    match kv rest "setup" with
+    | some x => (st, [s!"diff {id} slow-subscriber scenario could not be set up: {x}"])
+    | none =>
+    let parseIdx (s : String) : List (Option Nat) := if s = "-" then [] else (s.splitOn ",").map String.toNat?
+    match kv rest "filterA" >>= parseReq, kv rest "pubs", kv rest "res", kv rest "agot", kv rest "bgot" with
+    | some reqA, some pubs, some res, some agot, some bgot =>
+      match parseFilters reqA, (pubs.splitOn ";").mapM parseDec with
+      | .ok fA, some decs =>
+        let n := decs.length
+        let idxs := List.range n
+        let mt (f : List Filter) (i : Nat) : Bool := match decs[i]? with
+          | some (some (c, a)) => subMatches f c a
+          | _ => false
+        let expA := idxs.filter (mt fA)
+        let expB := idxs
+        -- Spec on the exact byte strings: every subscriber receives the published VAAs matching its filters, those bytes, nothing else
+        let judge (who : String) (f : List Filter) (exp : List Nat) (got : List (Option Nat)) : Option String :=
+          if got.any (·.isNone) then some s!"delivered-bytes-altered subscriber {who} received bytes that were never published (received {got.map fun o => (o.map toString).getD "x"}, published {n})"
+          else
+            let g := got.filterMap (fun o => o)
+            match g.find? (fun i => !mt f i) with
+            | some i => some s!"non-matching-subscriber-served subscriber {who} (filters {showFilters f}) received published VAA #{i}, whose emitter it does not match"
+            | none =>
+              if g = exp then none
+              else if g.length = exp.length then some s!"delivered-bytes-altered subscriber {who} was sent {exp} but received the bytes of {g}"
+              else match exp.find? (fun i => !g.contains i) with
+                | some i => some s!"matching-subscriber-not-served subscriber {who} never received published VAA #{i} (expected {exp}, received {g})"
+                | none => some s!"delivered-bytes-altered subscriber {who} expected {exp}, received {g}"
+        if (res.splitOn ",").any (· == "blocked") then
+          (st, [s!"diff {id} a Publish waited for a slow subscriber whose channel had a free slot (model: capacity {chanCap}); res={res}"])
+        else if (res.splitOn ",").any (· != "nil") then (st, [s!"diff {id} Publish results {res}"])
+        else if kv rest "abar" ≠ some "1" || kv rest "bbar" ≠ some "1" || kv rest "entered" ≠ some "1" then
+          (st, [s!"spec {id} delivery-stalled a reading subscriber did not get what was queued for it within the deadline"])
+        else match judge "A" fA expA (parseIdx agot), judge "B" [] expB (parseIdx bgot) with
+          | some e, _ => (st, [s!"spec {id} {e}"])
+          | _, some e => (st, [s!"spec {id} {e}"])
+          | none, none => ({ st with nSlow := st.nSlow + 1 }, [s!"ok {id}"])
+      | _, _ => (st, [s!"diff {id} unparsable spyslow line"])
+    | _, _, _, _, _ => (st, [s!"diff {id} unparsable spyslow line"])
+  | "spydepart" :: id :: rest =>
+    let st := { st with n := st.n + 1, nStall := st.nStall + 1 }
+    match kv rest "setup" with
+    | some x => (st, [s!"diff {id} departing-subscriber scenario could not be set up: {x}"])
+    | none =>
+      let g (k : String) : String := (kv rest k).getD "?"
+      if g "caughtup" ≠ "1" then (st, [s!"spec {id} delivery-stalled the first VAA did not reach both subscribers"])
+      else
+        -- Spec: "A subscriber that ... disconnects does not prevent delivery to the other subscribers, nor the ... removal of
+        -- subscriptions" — here nobody stopped reading: the subscriber had received everything before it left
+        let bad := ["pub", "rem", "bgot"].filter fun k => g k ≠ "done"
+        if bad.isEmpty then (st, [s!"ok {id}"])
+        else (st, [s!"spec {id} departing-subscriber-blocks-publish filterA={g "filterA"}: a subscriber that had read everything disconnected; a matching VAA published while its handler was between waking and removal (inwindow={g "inwindow"}): within {g "deadline_ms"} ms publish={g "pub"} its-removal={g "rem"} delivery-to-other={g "bgot"}"])
   | "spycap" :: id :: rest =>
     -- tie for the channel capacity: a subscriber stalled inside Send absorbs 1 + cap(sub.ch) publishes before one blocks
     match kvNat rest "through" with
@@ -163,7 +223,7 @@ def fin (st : St) : List String :=
   [s!"stat lines {st.n}", s!"stat subscriptions_registered {st.nSubOk}", s!"stat subscriptions_rejected {st.nSubRejected}",
    s!"stat publishes_decodable {st.nPubDecodable}", s!"stat publishes_undecodable {st.nPubUndecodable}",
    s!"stat channel_sends {st.nDeliveries}", s!"stat duplicate_deliveries {st.nDuplicates}", s!"stat leaves {st.nLeaves}",
-   s!"stat stall_scenarios {st.nStall}"]
+   s!"stat stall_scenarios {st.nStall}", s!"stat slow_subscriber_scenarios {st.nSlow}"]
 
 def run (h : IO.FS.Stream) : IO Unit := loop h ({} : St) step fin
 
